@@ -39,8 +39,8 @@ theorem initPhase_step {cfg : Cfg} {root : Stage} {s s' : State} {n : Nat} (hi :
       | succ n => simp [stepAt] at h
 
 /-- the invariant once the root stage is registered, for runs without panics -/
-structure MainNP (s : State) : Prop where
-  np : StagesOK (fun st => st.noPanic = true) s
+structure MainNP (cfg : Cfg) (s : State) : Prop where
+  np : cfg.stageRecover = true ∨ StagesOK (fun st => st.noPanic = true) s
   g0 : gap s = 0
   wf : WF s
   cnt : Cnt s
@@ -50,29 +50,34 @@ structure MainNP (s : State) : Prop where
   will : s.sh.pending = 0 → s.sh.completed = true ∨ 0 < tsum Instr.fires s.threads
   quiet : 0 < tsum Instr.fires s.threads → s.sh.pending = 0
 
-theorem mainNP_first {root : Stage} (hnp : root.noPanic = true) {s : State}
+theorem mainNP_first {cfg : Cfg} {root : Stage} (hnp : cfg.stageRecover = true ∨ root.noPanic = true) {s : State}
     (hsh : s.sh = { (init root).sh with pending := 1, registered := 1 })
-    (ht : s.threads = [⟨false, [.launch root]⟩]) : MainNP s := by
+    (ht : s.threads = [⟨false, [.launch root]⟩]) : MainNP cfg s := by
   cases s with
   | mk sh threads =>
     simp only at hsh ht
     subst hsh ht
-    refine ⟨?_, ?_, ?_, ?_, ?_, ?_, ?_, ?_, ?_⟩ <;>
-      simp [StagesOK, Instr.stageOK, hnp, gap, init, Instr.owed, WF, wfCode, Instr.startLike, Cnt, Instr.fires]
+    refine ⟨?_, ?_, ?_, ?_, ?_, ?_, ?_, ?_, ?_⟩
+    · rcases hnp with h | h
+      · exact Or.inl h
+      · right; simp [StagesOK, Instr.stageOK, h]
+    all_goals simp [gap, init, Instr.owed, WF, wfCode, Instr.startLike, Cnt, Instr.fires]
 
-theorem stagesOK_noPanicExec {s : State} (h : StagesOK (fun st => st.noPanic = true) s) :
-    ∀ t ∈ s.threads, ∀ i ∈ t.code, i.noPanicExec := by
+theorem np_noLoss {cfg : Cfg} {s : State} (h : cfg.stageRecover = true ∨ StagesOK (fun st => st.noPanic = true) s) :
+    ∀ t ∈ s.threads, ∀ i ∈ t.code, i.noLoss cfg := by
   intro t ht i hi
-  have := h t ht i hi
-  cases i <;> simp_all [Instr.noPanicExec, Instr.stageOK]
+  cases i <;> simp only [Instr.noLoss]
   rename_i st
-  exact ((Stage.noPanic_iff st).mp this).1
+  rcases h with h | h
+  · exact Or.inl h
+  · have := h t ht (.exec st) hi
+    exact Or.inr ((Stage.noPanic_iff st).mp this).1
 
 /-- while `pending ≠ 0` and nothing is pending for `complete`: an instruction leaves the pipeline
 uncompleted, and asks for `complete` exactly when it brings `pending` to zero -/
 theorem stepInstr_quiet (cfg : Cfg) (sh : Shared) (pooled : Bool) (i : Instr) (rest : List Instr)
     (hc : sh.completed = false) (hfired : sh.fired = []) (hi : i.fires = 0)
-    (hr : csum Instr.fires rest = 0) (hnp : i.noPanicExec) (hp0 : 0 ≤ sh.pending) :
+    (hr : csum Instr.fires rest = 0) (hnp : i.noLoss cfg) (hp0 : 0 ≤ sh.pending) :
     (stepInstr cfg sh pooled i rest).sh.completed = false ∧
     (stepInstr cfg sh pooled i rest).sh.fired = [] ∧
     tsum Instr.fires (stepInstr cfg sh pooled i rest).spawn = 0 ∧
@@ -81,12 +86,15 @@ theorem stepInstr_quiet (cfg : Cfg) (sh : Shared) (pooled : Bool) (i : Instr) (r
     ((stepInstr cfg sh pooled i rest).sh.pending ≠ 0 ∨ sh.pending = 0 →
         csum Instr.fires (stepInstr cfg sh pooled i rest).code = 0) := by
   cases i <;> simp only [stepInstr] <;> (repeat' split) <;>
-    simp_all [Instr.fires, Instr.noPanicExec] <;> omega
+    simp_all [Instr.fires, Instr.noLoss] <;> omega
 
-theorem mainNP_step {cfg : Cfg} {s s' : State} {n : Nat} (hinv : MainNP s)
-    (h : stepAt cfg s n = some s') : MainNP s' := by
-  have hnp' := step_stagesOK noPanic_hereditary hinv.np h
-  have hg' : gap s' = 0 := (step_gap_eq h (stagesOK_noPanicExec hinv.np)).trans hinv.g0
+theorem mainNP_step {cfg : Cfg} {s s' : State} {n : Nat} (hinv : MainNP cfg s)
+    (h : stepAt cfg s n = some s') : MainNP cfg s' := by
+  have hnp' : cfg.stageRecover = true ∨ StagesOK (fun st => st.noPanic = true) s' := by
+    rcases hinv.np with h1 | h1
+    · exact Or.inl h1
+    · exact Or.inr (step_stagesOK noPanic_hereditary h1 h)
+  have hg' : gap s' = 0 := (step_gap_eq h (np_noLoss hinv.np)).trans hinv.g0
   have hwf' := step_wf hinv.wf h
   have hcnt' := step_cnt hinv.cnt h
   obtain ⟨pooled, i, rest, hget, hsh, hsum⟩ := stepAt_elim' h
@@ -148,7 +156,7 @@ theorem mainNP_step {cfg : Cfg} {s s' : State} {n : Nat} (hinv : MainNP s)
     have hFc := csum_le_tsum (w := Instr.fires) hget
     simp only [csum_cons] at hFc hF
     have hq := stepInstr_quiet cfg s.sh pooled i rest hc hfired (by omega) (by omega)
-      (stagesOK_noPanicExec hinv.np _ (List.mem_of_getElem? hget) i (by simp)) (by omega)
+      (np_noLoss hinv.np _ (List.mem_of_getElem? hget) i (by simp)) (by omega)
     obtain ⟨q1, q2, q3, q4, q5⟩ := hq
     refine ⟨hnp', hg', hwf', hcnt', ?_, ?_, ?_, ?_, ?_⟩ <;> rw [hsh]
     · intro _; exact q2
@@ -163,7 +171,7 @@ theorem mainNP_step {cfg : Cfg} {s s' : State} {n : Nat} (hinv : MainNP s)
       · have := q5 (Or.inl hz); omega
 
 /-- at the end of a run without panics -/
-theorem mainNP_terminal {s : State} (hinv : MainNP s) (hon : InvOnce s) (ht : Terminal s) :
+theorem mainNP_terminal {cfg : Cfg} {s : State} (hinv : MainNP cfg s) (hon : InvOnce s) (ht : Terminal s) :
     ∃ f, s.sh.fired = [f] ∧ f.finished = s.sh.registered ∧ f.registered = s.sh.registered
       ∧ s.sh.finished = s.sh.registered ∧ s.sh.pending = 0 := by
   have hO : tsum Instr.owed s.threads = 0 := tsum_eq_zero_iff.mpr (fun t h => by rw [ht t h]; rfl)
@@ -195,9 +203,9 @@ theorem initPhase_not_terminal {root : Stage} {s : State} (hi : InitPhase root s
   · have := ht ⟨false, [.register root]⟩ (by rw [h]; simp)
     simp at this
 
-theorem invNP_reachable {cfg : Cfg} {root : Stage} {s : State} (hnp : root.noPanic = true)
-    (hr : Reachable cfg (init root) s) : InitPhase root s ∨ MainNP s := by
-  refine Reachable.invariant (P := fun s => InitPhase root s ∨ MainNP s) (Or.inl (initPhase_init root)) ?_ hr
+theorem invNP_reachable {cfg : Cfg} {root : Stage} {s : State} (hnp : cfg.stageRecover = true ∨ root.noPanic = true)
+    (hr : Reachable cfg (init root) s) : InitPhase root s ∨ MainNP cfg s := by
+  refine Reachable.invariant (P := fun s => InitPhase root s ∨ MainNP cfg s) (Or.inl (initPhase_init root)) ?_ hr
   intro s s' n hinv hs
   rcases hinv with hi | hm
   · rcases initPhase_step hi hs with hi' | ⟨hsh, ht⟩
